@@ -250,3 +250,273 @@ pub fn ctor(args: &[&str]) -> Option<Vec<String>> {
         _ => return None,
     })
 }
+
+// ---------------------------------------------------------------------------------------------------------------------
+// `tstall`: a peer that stops responding around the TLS layer (C20)
+
+use std::sync::atomic::{AtomicBool, Ordering};
+use std::sync::Arc;
+
+/// keep the connection open without saying anything, until the run is over or the client closes
+fn hold<S: Read>(s: &mut S, done: &AtomicBool) {
+    let mut buf = [0u8; 4096];
+    let t0 = std::time::Instant::now();
+    while !done.load(Ordering::SeqCst) && t0.elapsed() < Duration::from_secs(30) {
+        match s.read(&mut buf) {
+            Ok(0) => break,
+            Ok(_) => {}
+            Err(e) if matches!(e.kind(), std::io::ErrorKind::WouldBlock | std::io::ErrorKind::TimedOut) => {}
+            Err(_) => break,
+        }
+    }
+}
+
+fn read_line_from<S: Read>(s: &mut S, done: &AtomicBool) -> Option<String> {
+    let mut line = Vec::new();
+    let mut b = [0u8; 1];
+    let t0 = std::time::Instant::now();
+    loop {
+        if done.load(Ordering::SeqCst) || t0.elapsed() > Duration::from_secs(30) {
+            return None;
+        }
+        match s.read(&mut b) {
+            Ok(0) => return None,
+            Ok(_) => {
+                line.push(b[0]);
+                if b[0] == b'\n' {
+                    return Some(String::from_utf8_lossy(&line).into_owned());
+                }
+            }
+            Err(e) if matches!(e.kind(), std::io::ErrorKind::WouldBlock | std::io::ErrorKind::TimedOut) => {}
+            Err(_) => return None,
+        }
+    }
+}
+
+/// SMTP over `s` to the end, going silent at `at` (`g` instead of the greeting, `e` / `s` / `m` / `z` instead of the reply to
+/// EHLO / STARTTLS / MAIL / the end of data). Returns true when the client asked for STARTTLS and got its 220.
+fn stall_dialogue<S: Read + Write>(s: &mut S, greet: bool, offer_starttls: bool, at: Option<char>, done: &AtomicBool) -> bool {
+    if greet {
+        if at == Some('g') {
+            hold(s, done);
+            return false;
+        }
+        if s.write_all(b"220 srv ESMTP\r\n").is_err() {
+            return false;
+        }
+    }
+    let mut in_data = false;
+    loop {
+        let Some(line) = read_line_from(s, done) else { return false };
+        if in_data {
+            if line == ".\r\n" {
+                in_data = false;
+                if at == Some('z') {
+                    hold(s, done);
+                    return false;
+                }
+                let _ = s.write_all(b"250 queued\r\n");
+            }
+            continue;
+        }
+        let up = line.to_ascii_uppercase();
+        let reply: &[u8] = if up.starts_with("EHLO") {
+            if at == Some('e') {
+                hold(s, done);
+                return false;
+            }
+            if offer_starttls {
+                b"250-srv\r\n250 STARTTLS\r\n"
+            } else {
+                b"250-srv\r\n250 8BITMIME\r\n"
+            }
+        } else if up.starts_with("STARTTLS") {
+            if at == Some('s') {
+                hold(s, done);
+                return false;
+            }
+            let _ = s.write_all(b"220 go ahead\r\n");
+            return true;
+        } else if up.starts_with("MAIL") {
+            if at == Some('m') {
+                hold(s, done);
+                return false;
+            }
+            b"250 ok\r\n"
+        } else if up.starts_with("DATA") {
+            in_data = true;
+            b"354 go\r\n"
+        } else if up.starts_with("QUIT") {
+            let _ = s.write_all(b"221 bye\r\n");
+            return false;
+        } else {
+            b"250 ok\r\n"
+        };
+        if s.write_all(reply).is_err() {
+            return false;
+        }
+    }
+}
+
+fn serve_tstall_conn(mut s: TcpStream, wrapper: bool, at: Option<char>, ident: native_tls::Identity, done: Arc<AtomicBool>) {
+    s.set_nodelay(true).ok();
+    s.set_read_timeout(Some(Duration::from_millis(50))).ok();
+    // before TLS: `s` (no reply to STARTTLS) and `h` (no handshake) stall here, every other position inside TLS
+    if !wrapper {
+        let clear_at = if at == Some('s') { at } else { None };
+        if !stall_dialogue(&mut s, true, true, clear_at, &done) {
+            return;
+        }
+    }
+    if at == Some('h') {
+        hold(&mut s, &done);
+        return;
+    }
+    let Ok(acceptor) = native_tls::TlsAcceptor::new(ident) else { return };
+    // the handshake itself needs a blocking socket
+    s.set_read_timeout(Some(Duration::from_secs(8))).ok();
+    let Ok(mut t) = acceptor.accept(s) else { return };
+    t.get_ref().set_read_timeout(Some(Duration::from_millis(50))).ok();
+    stall_dialogue(&mut t, wrapper, false, at, &done);
+}
+
+/// `tstall <client s|a> <T ms> <mode w|r> <at h|g|e|s|m|z>`: two sends through a transport with timeout T and TLS (implicit
+/// or required STARTTLS) against a peer whose first connection goes silent at `at`; later connections are served to the
+/// end. Reports `result@is_timeout@ms` per send.
+pub fn tstall(args: &[&str]) -> Option<Vec<String>> {
+    let client = *args.first()?;
+    let t_ms: u64 = args.get(1)?.parse().ok()?;
+    let mode = *args.get(2)?;
+    let at = args.get(3)?.chars().next()?;
+    let ident = identity("g")?;
+    // trust the test CA, accept the host name (the peer is reached by address)
+    let params = tls_params("1001")?;
+    let wrapper = match mode {
+        "w" => true,
+        "r" => false,
+        _ => return None,
+    };
+    let tlscfg = if wrapper { Tls::Wrapper(params) } else { Tls::Required(params) };
+    let (listener, port) = listen()?;
+    let done = Arc::new(AtomicBool::new(false));
+    let server = {
+        let done = done.clone();
+        std::thread::spawn(move || {
+            listener.set_nonblocking(true).ok();
+            let mut handlers = Vec::new();
+            let mut k = 0usize;
+            while !done.load(Ordering::SeqCst) {
+                match listener.accept() {
+                    Ok((s, _)) => {
+                        s.set_nonblocking(false).ok();
+                        let (ident, done) = (ident.clone(), done.clone());
+                        let stall = if k == 0 { Some(at) } else { None };
+                        k += 1;
+                        handlers.push(std::thread::spawn(move || serve_tstall_conn(s, wrapper, stall, ident, done)));
+                    }
+                    Err(_) => std::thread::sleep(Duration::from_millis(2)),
+                }
+            }
+            for h in handlers {
+                let _ = h.join();
+            }
+        })
+    };
+    let timeout = Duration::from_millis(t_ms);
+    let cap = timeout * 10 + Duration::from_secs(3);
+    let env = Envelope::new(Some("a@b.c".parse().ok()?), vec!["x@y.z".parse().ok()?]).ok()?;
+    let hello = ClientId::Domain("c.example".into());
+    let tf = |r: &Result<lettre::transport::smtp::response::Response, lettre::transport::smtp::Error>| match r {
+        Err(e) if e.is_timeout() => "t",
+        Err(_) => "n",
+        Ok(_) => "-",
+    };
+    let mut out: Vec<String> = Vec::new();
+    match client {
+        // a connection of its own, set up with a long timeout; T is configured afterwards with `set_timeout`
+        "c" => {
+            let (tx, rx) = std::sync::mpsc::channel();
+            let params = tls_params("1001")?;
+            std::thread::spawn(move || {
+                use lettre::transport::smtp::client::SmtpConnection;
+                let long = Some(Duration::from_secs(5));
+                let conn = if wrapper {
+                    SmtpConnection::connect((crate::util::lo(), port), long, &hello, Some(&params), None)
+                } else {
+                    SmtpConnection::connect((crate::util::lo(), port), long, &hello, None, None).and_then(|mut c| c.starttls(&params, &hello).map(|_| c))
+                };
+                let mut conn = match conn {
+                    Ok(c) => c,
+                    Err(e) => {
+                        let _ = tx.send(format!("setup:{}@-@0", crate::client::describe_err(&e)));
+                        return;
+                    }
+                };
+                if conn.set_timeout(Some(timeout)).is_err() {
+                    let _ = tx.send("setup:set_timeout@-@0".to_string());
+                    return;
+                }
+                let t0 = std::time::Instant::now();
+                let r = conn.send(&env, b"m\r\n");
+                let _ = tx.send(format!("{}@{}@{}", describe(&r), tf(&r), t0.elapsed().as_millis()));
+            });
+            match rx.recv_timeout(cap) {
+                Ok(s) => out.push(s),
+                Err(_) => out.push(format!("HANG@-@{}", cap.as_millis())),
+            }
+        }
+        "s" => {
+            let (tx, rx) = std::sync::mpsc::channel();
+            std::thread::spawn(move || {
+                let t = SmtpTransport::builder_dangerous(crate::util::lo())
+                    .port(port)
+                    .hello_name(hello)
+                    .timeout(Some(timeout))
+                    .tls(tlscfg)
+                    .pool_config(PoolConfig::new().max_size(1))
+                    .build();
+                for _ in 0..2 {
+                    let t0 = std::time::Instant::now();
+                    let r = t.send_raw(&env, b"m\r\n");
+                    let _ = tx.send(format!("{}@{}@{}", describe(&r), tf(&r), t0.elapsed().as_millis()));
+                }
+            });
+            for _ in 0..2 {
+                match rx.recv_timeout(cap) {
+                    Ok(s) => out.push(s),
+                    Err(_) => {
+                        out.push(format!("HANG@-@{}", cap.as_millis()));
+                        break;
+                    }
+                }
+            }
+        }
+        "a" => {
+            let rt = tokio::runtime::Builder::new_multi_thread().worker_threads(2).enable_all().build().ok()?;
+            rt.block_on(async {
+                let t: AsyncSmtpTransport<Tokio1Executor> = AsyncSmtpTransport::<Tokio1Executor>::builder_dangerous(crate::util::lo())
+                    .port(port)
+                    .hello_name(hello)
+                    .timeout(Some(timeout))
+                    .tls(tlscfg)
+                    .pool_config(PoolConfig::new().max_size(1))
+                    .build();
+                for _ in 0..2 {
+                    let t0 = std::time::Instant::now();
+                    match tokio::time::timeout(cap, t.send_raw(&env, b"m\r\n")).await {
+                        Ok(r) => out.push(format!("{}@{}@{}", describe(&r), tf(&r), t0.elapsed().as_millis())),
+                        Err(_) => {
+                            out.push(format!("HANG@-@{}", cap.as_millis()));
+                            break;
+                        }
+                    }
+                }
+            });
+            rt.shutdown_background();
+        }
+        _ => return None,
+    }
+    done.store(true, Ordering::SeqCst);
+    let _ = server.join();
+    Some(vec![out.join(";")])
+}
